@@ -18,7 +18,7 @@ import json, os, sys
 sys.setrecursionlimit(2500)
 import logging; logging.disable(logging.CRITICAL)
 import celpy, celpy.c7nlib
-from vf import outcome, values, fresh
+from vf import outcome, values, fresh, hostfuncs
 fresh.speed_up_parser_construction()
 RUNNERS = {"I": celpy.InterpretedRunner, "C": celpy.CompiledRunner}
 ANN = {"int": celpy.celtypes.IntType, "map": celpy.celtypes.MapType, "string": celpy.celtypes.StringType, "bool": celpy.celtypes.BoolType, "list": celpy.celtypes.ListType}
@@ -46,7 +46,7 @@ def one(req):
         except celpy.CELParseError as ex:
             return ["parse_error", ex.line, ex.column]
         try:
-            prgm = env.program(ast)
+            prgm = env.program(ast, functions=hostfuncs.CONFIGS[req.get("functions", 0)])
         except Exception as ex:
             return ["crash", type(ex).__name__, "program"]
         try:
@@ -133,8 +133,8 @@ class Zygote:
         self.cache: Dict[str, Any] = {}
         self.requests = 0
 
-    def alone(self, runner: str, package: Optional[str], annotations: Dict[str, str], expr: str, bindings: Dict[str, Any]) -> Tuple:
-        req = {"runner": runner, "package": package, "annotations": annotations, "expr": expr, "bindings": bindings}
+    def alone(self, runner: str, package: Optional[str], annotations: Dict[str, str], expr: str, bindings: Dict[str, Any], functions: int = 0) -> Tuple:
+        req = {"runner": runner, "package": package, "annotations": annotations, "expr": expr, "bindings": bindings, "functions": functions}
         key = json.dumps(req, sort_keys=True)
         if key not in self.cache:
             self.requests += 1
